@@ -1,21 +1,14 @@
 package main
 
 import (
+	"fmt"
 	"math"
 	"sort"
-	"strings"
 
 	ad "github.com/pbenner/autodiff"
-	"github.com/pbenner/autodiff/algorithm/cholesky"
-	"github.com/pbenner/autodiff/algorithm/eigensystem"
-	"github.com/pbenner/autodiff/algorithm/gramSchmidt"
-	"github.com/pbenner/autodiff/algorithm/hessenbergReduction"
-	"github.com/pbenner/autodiff/algorithm/householderBidiagonalization"
-	"github.com/pbenner/autodiff/algorithm/householderTridiagonalization"
 	"github.com/pbenner/autodiff/algorithm/msqrt"
 	"github.com/pbenner/autodiff/algorithm/msqrtInv"
 	"github.com/pbenner/autodiff/algorithm/qrAlgorithm"
-	"github.com/pbenner/autodiff/algorithm/svd"
 	verifrt "github.com/pbenner/autodiff/zz_verifrt"
 
 	"verif/mc/cmd/c05/lat"
@@ -251,7 +244,6 @@ func runCase(cs *Case, bud int64) (out outcome) {
 	n := cs.C
 	f := &out.fails
 	e := cs.Elem
-	t := elemType(e)
 	a := mk(e, A)
 	scale := scaleOf(A)
 	tol := relTol * scale
@@ -353,6 +345,12 @@ func runCase(cs *Case, bud int64) (out outcome) {
 		if v := maxWhere(l, func(i, j int) bool { return j > i }); v > 0 {
 			f.add("structure-lower-triangular", "L has a non-zero entry %.3g above the diagonal", v)
 		}
+		// the lower triangle is the factor (entries above it are judged above)
+		for i := 0; i < n; i++ {
+			for j := i + 1; j < n; j++ {
+				l.Set(i, j, 0)
+			}
+		}
 		if !ldl {
 			if d := lat.Fro(lat.Sub(lat.Mul(l, lat.T(l)), A)); !(d <= tol) {
 				f.add("reconstruction", "‖L·Lᵀ−A‖=%.3g (tol %.3g)", d, tol)
@@ -416,9 +414,10 @@ func runCase(cs *Case, bud int64) (out outcome) {
 		if v := maxWhere(r, func(i, j int) bool { return i > j }); v > tol {
 			f.add("structure-upper-triangular", "R has entry %.3g below the diagonal", v)
 		}
+		// the upper triangle is the factor (entries below it are judged above)
 		rt := lat.New(n, n)
 		for i := 0; i < n; i++ {
-			for j := 0; j < n; j++ {
+			for j := i; j < n; j++ {
 				rt.Set(i, j, r.At(i, j))
 			}
 		}
